@@ -11,8 +11,7 @@
                        update/unset node and link properties singly and in bulk, whole-graph update,
                        listings, existence/uniqueness tests, matching, delete graph) and does not REWRITE
                        GraphID / NodeID (re-homing / renaming: outside the documented interface, C14).
-                       merge_nodes has its own theorems; import / clone are C04's.
-   [partners_exist]  = find_matching_nodes is called with a partner graph that holds nodes. *)
+                       merge_nodes has its own theorems; import / clone are C04's. *)
 From Coq Require Import List NArith Bool.
 From FIM Require Import Base.Assoc Gen.PGConst Model.Store Model.StoreDisjoint Model.PGSpec.
 From FIM Require Import Proofs.IsolationShared Proofs.RefineGuards Proofs.RefineUnique Proofs.RefineMerge
@@ -36,31 +35,25 @@ Proof. exact shared_refines_spec. Qed.
 Print Assumptions C05_shared_refines_spec.
 
 Theorem C05_disjoint_refines_spec : forall ops,
-  (forall o, In o ops -> refine_scope o = true) -> partners_exist [] ops = true ->
+  (forall o, In o ops -> refine_scope o = true) ->
   dresults init_dstore ops = spec_results [] ops /\
   forall g, abs_disjoint (drun ops init_dstore) g = sget (spec_run ops []) g.
 Proof. exact disjoint_refines_spec. Qed.
 Print Assumptions C05_disjoint_refines_spec.
 
-(* same results, same exceptions, same content, step by step, for every history *)
-Theorem C05_backends_agree_partial : forall ops,
-  (forall o, In o ops -> refine_scope o = true) -> partners_exist [] ops = true ->
+(* same results, same exceptions, same content, step by step, for every history of the quantified
+   operations (full strength since fix 6383c41: find_matching_nodes with a partner that holds no nodes
+   returns the empty set on both flavours) *)
+Theorem C05_backends_agree : forall ops,
+  (forall o, In o ops -> refine_scope o = true) ->
   sresults init_store ops = dresults init_dstore ops /\
   forall g, abs_shared (srun ops init_store) g = abs_disjoint (drun ops init_dstore) g.
 Proof. exact backends_agree. Qed.
-Print Assumptions C05_backends_agree_partial.
+Print Assumptions C05_backends_agree.
 
-(* FULL statement (false): the same without [partners_exist].  Witness: find_matching_nodes with a
-   partner that holds no node raises AssertionError on the shared store and returns an empty set on
-   the other one (known finding, proposed fix C05-1). *)
-Theorem C05_backends_agree_refuted :
-  exists ops, (forall o, In o ops -> refine_scope o = true) /\
-              results_eqb (sresults init_store ops) (dresults init_dstore ops) = false.
-Proof. exact agree_matching_absent_partner_refuted. Qed.
-Print Assumptions C05_backends_agree_refuted.
-
-(* outside the quantifier of C05 but recorded: import onto a live id (replace vs skip) and clone of
-   a graph without nodes (AttributeError vs normal return) differ between the flavours *)
+(* documentation only - OUTSIDE the quantifier of C05 (these are storage / importer operations, C04):
+   import onto a live id (replace vs skip with a warning) and clone of a graph without nodes
+   (AttributeError vs normal return) differ between the two flavours *)
 Theorem C05_agree_reimport_live_refuted :
   exists ops, (forall o, In o ops -> in_spec_scope o = true) /\
               results_eqb (sresults init_store ops) (dresults init_dstore ops) = false.
@@ -96,24 +89,20 @@ Theorem C05_class_write_rejected_disjoint : forall d o,
 Proof. exact class_write_rejected_disjoint. Qed.
 Print Assumptions C05_class_write_rejected_disjoint.
 
-(* over ALL merge-free histories (imports, clones, failing calls, identity rewriting included): a stored
-   node never loses GraphID / NodeID / Type / Class / Name and its Class value never changes *)
+(* over ALL histories - imports, clones, failing calls, identity rewriting AND merges - a stored node never
+   loses GraphID / NodeID / Type / Class / Name and its Class value never changes.  [class_scope]: a
+   merge policy does not name Class (naming it is the caller's explicit request for the other node's class) *)
 Theorem C05_identity_kept : forall pre ops,
-  merge_free ops -> evolves (sg (srun pre init_store)) (sg (srun (pre ++ ops) init_store)).
+  (forall o, In o ops -> class_scope o = true) ->
+  evolves (sg (srun pre init_store)) (sg (srun (pre ++ ops) init_store)).
 Proof. exact identity_kept_all. Qed.
 Print Assumptions C05_identity_kept.
 
-(* FULL statement (false) once merge_nodes is allowed: a policy that needs a property the other node
-   lacks raises KeyError AFTER the contraction and after clear(): the node is left with no property at
-   all (known finding, proposed fix C05-2) *)
-Theorem C05_merge_atomic_refuted :
-  exists ops o u,
-    (forall x, In x ops -> nid_scope x = true) /\ nid_scope o = true /\
-    snd (sstep (srun ops init_store) o) = Err EKey /\
-    (exists ps, nx_node (sg (srun ops init_store)) u = Some ps /\ ahas k_graphid ps = true) /\
-    nx_node (sg (fst (sstep (srun ops init_store) o))) u = Some [].
-Proof. exact merge_atomic_refuted. Qed.
-Print Assumptions C05_merge_atomic_refuted.
+(* a failing merge_nodes leaves both graphs - the whole store - unchanged (fix e66ee73) *)
+Theorem C05_merge_fails_unchanged : forall s g n g2 pol e,
+  snd (sstep s (OMerge g n g2 pol)) = Err e -> fst (sstep s (OMerge g n g2 pol)) = s.
+Proof. exact merge_fails_unchanged_step. Qed.
+Print Assumptions C05_merge_fails_unchanged.
 
 (* ---- a NodeID is unique within its graph whatever the class ---- *)
 (* [nid_scope]: no rewriting of GraphID / NodeID, imported graphs have unique NodeIDs, a merge policy
@@ -151,11 +140,16 @@ Proof. exact merge_ok_spec. Qed.
 Print Assumptions C05_merge_keeps_edges_and_policy.
 
 (* ---- non-vacuity ---- *)
+Example C05_merge_fails_nonvacuous :
+  snd (sstep (srun (firstn 2 w_merge) init_store) (OMerge 10 20 11 (Some [(50, s_overwrite)]))) = Err EKey /\
+  fst (sstep (srun (firstn 2 w_merge) init_store) (OMerge 10 20 11 (Some [(50, s_overwrite)]))) = srun (firstn 2 w_merge) init_store.
+Proof. exact merge_fails_nonvacuous. Qed.
+
 Example C05_agree_nonvacuous :
-  forallb refine_scope w_agree = true /\ partners_exist [] w_agree = true /\
+  forallb refine_scope w_agree = true /\
   sresults init_store w_agree =
     [Ok RUnit; Ok RUnit; Ok RUnit; Ok RUnit; Err EQuery; Ok RUnit; Err EQuery; Ok RUnit; Ok RUnit;
-     Ok (RVals [PV 20]); Ok (RVals [PV 20; PV 21]); Ok RUnit; Err EQuery; Ok RUnit; Ok (RBool false)] /\
+     Ok (RVals [PV 20]); Ok (RVals [PV 20; PV 21]); Ok RUnit; Err EQuery; Ok RUnit; Ok (RBool false); Ok (RVals [])] /\
   dresults init_dstore w_agree = sresults init_store w_agree.
 Proof. exact agree_nonvacuous. Qed.
 
